@@ -70,10 +70,11 @@ class Scn:
     def scripts_txt(self):
         return " | ".join(" ".join(s) for s in self.scripts)
 
-    def request(self, pol="np", seed=1, bound=4000, prefix=(), flush=0):
+    def request(self, pol="np", seed=1, bound=4000, prefix=(), flush=0, devs=()):
         pre = ",".join(map(str, prefix)) if prefix else "-"
+        dev = ",".join(f"{k}:{t}" for k, t in devs) if devs else "-"
         split = 1 if pol.endswith("s") else 0       # policies `nps` / `rands` = scheduler split mode
-        return f"run {self.cfg()} pol={pol.rstrip('s')} seed={seed} bound={bound} flush={flush} split={split} pre={pre} | {self.scripts_txt()}"
+        return f"run {self.cfg()} pol={pol.rstrip('s')} seed={seed} bound={bound} flush={flush} split={split} pre={pre} dev={dev} | {self.scripts_txt()}"
 
     def model_cfg(self, repaired):
         return f"cfg {self.cfg()} rep={1 if repaired else 0} | {self.scripts_txt()}"
@@ -90,7 +91,8 @@ def parse_request(line):
     s = Scn(scripts, int(kv.get("q", 2)), int(kv.get("min", 0)), int(kv.get("max", 3)), int(kv.get("lazy", 0)),
             int(kv.get("tick", 0)), int(kv.get("sp", 0)))
     pre = [] if kv.get("pre", "-") == "-" else [int(x) for x in kv["pre"].split(",")]
-    return s, kv.get("pol", "np") + ("s" if kv.get("split", "0") == "1" else ""), int(kv.get("seed", 1)), int(kv.get("bound", 4000)), pre
+    devs = [] if kv.get("dev", "-") == "-" else [tuple(int(y) for y in x.split(":")) for x in kv["dev"].split(",")]
+    return s, kv.get("pol", "np") + ("s" if kv.get("split", "0") == "1" else ""), int(kv.get("seed", 1)), int(kv.get("bound", 4000)), pre, devs
 
 
 # ---- running -----------------------------------------------------------------------------------------
@@ -361,7 +363,7 @@ def batch(args):
     global DRV
     exe, scn_key, specs, repaired, want_enabled, DRV = args
     scn = SCN_CACHE[scn_key] if scn_key in SCN_CACHE else parse_request("run " + scn_key)[0]
-    reqs = [scn.request(pol, seed, bound, prefix) for (pol, seed, bound, prefix) in specs]
+    reqs = [scn.request(sp[0], sp[1], sp[2], sp[3], devs=(sp[4] if len(sp) > 4 else ())) for sp in specs]
     traces, err = run_requests(exe, reqs)
     outs = run_driver([driver_lines(scn, tr, repaired) for tr in traces])
     return [summarize(scn, rq, tr, mo, want_enabled) for rq, tr, mo in zip(reqs, traces, outs)]
@@ -374,6 +376,64 @@ def exact_request(scn, r):
     """request line that replays a run deterministically (the full choice list as forced prefix)"""
     pre = [c for c, _ in (r["choices"] or [])]
     return scn.request("nps" if " split=1 " in r["req"] else "np", 1, 20000, pre, flush=1)
+
+
+# ---- shrinking: ddmin over the deviation points of a failing schedule ----------------------------------------
+def shrink_schedule(exe, scn, r, sig, repaired=True, max_batches=60):
+    """r: summary of a failing run (with r['choices']).  The schedule is rewritten as `non-preemptive default policy +
+    forced choices (step:thread)`; delta debugging removes forced choices while the same violation class persists.
+    -> (request line, number of forced choices, steps) of the shortest failing schedule found"""
+    split = " split=1 " in r["req"]
+    pol = "nps" if split else "np"
+    devs = [(k, c) for k, (c, _) in enumerate(r["choices"] or [])]
+    calls = [0]
+
+    def test_many(cands):
+        """-> index of the first candidate that still fails with `sig` (and its summary), else None"""
+        if calls[0] >= max_batches:
+            return None
+        calls[0] += 1
+        res = batch((str(exe), scn.key(), [(pol, 1, 20000, (), tuple(d)) for d in cands], repaired, True, DRV))
+        for i, x in enumerate(res):
+            if x["sig"] == sig:
+                return i, x
+        return None
+
+    SCN_CACHE[scn.key()] = scn
+    first = test_many([devs])
+    if first is None:
+        return None
+    best = first[1]
+    # 1. drop the tail: shortest prefix of forced choices after which the default policy still fails
+    lo, hi = 0, len(devs)
+    while lo < hi and calls[0] < max_batches:
+        cuts = sorted(set(lo + (hi - lo) * j // 8 for j in range(8)))
+        got = test_many([devs[:c] for c in cuts])
+        if got is None:
+            lo = cuts[-1] + 1 if cuts[-1] + 1 <= hi else hi
+            if cuts[-1] + 1 >= hi:
+                break
+        else:
+            hi = cuts[got[0]]
+            best = got[1]
+    devs = devs[:hi]
+    # 2. ddmin over the remaining forced choices
+    n = 2
+    while len(devs) >= 2 and calls[0] < max_batches:
+        size = max(1, len(devs) // n)
+        cands = [devs[:i] + devs[i + size:] for i in range(0, len(devs), size)]
+        got = test_many(cands)
+        if got is not None:
+            devs = cands[got[0]]
+            best = got[1]
+            n = max(n - 1, 2)
+        else:
+            if size == 1:
+                break
+            n = min(len(devs), n * 2)
+    # 3. keep only forced choices that really deviate from the default policy
+    line = scn.request(pol, 1, 20000, (), flush=1, devs=devs)
+    return line, len(devs), best["steps"], best
 
 
 # ---- scenario generators ---------------------------------------------------------------------------------
@@ -446,8 +506,8 @@ def explore(ctx, exe, pool, repaired, stats, on_result):
     for h in C.load_corpus(ctx.prop):
         for line in h:
             if line.startswith("run "):
-                scn, pol, seed, bound, pre = parse_request(line)
-                submit(scn, [(pol, seed, bound, tuple(pre))])
+                scn, pol, seed, bound, pre, devs = parse_request(line)
+                submit(scn, [(pol, seed, bound, tuple(pre), tuple(devs))])
                 stats["corpus"] += 1
     # deviation-bounded exhaustive schedules of the small scope
     smalls = small_scenarios()
@@ -635,12 +695,24 @@ def check(ctx):
             explore(ctx, exe, pool, repaired, stats, on_result)
             xres = [f.result() for f in xf]
             wres = [f.result() for f in wf]
+    except Exception:
+        for f in (exe, DRV):
+            try:
+                f.unlink()
+            except OSError:
+                pass
+        raise
+    try:
+        report(ctx, exe, repaired, stats, found, diffs, distinct, samples, xres, wres)
     finally:
         for f in (exe, DRV):
             try:
                 f.unlink()
             except OSError:
                 pass
+
+
+def report(ctx, exe, repaired, stats, found, diffs, distinct, samples, xres, wres):
     ctx.cov["evaluations"] = stats["steps"]
     ctx.cov["traces_validated_against_impl"] = stats["runs"]
     ctx.cov["distinct_nontrivial"] = len(distinct)
@@ -670,7 +742,24 @@ def check(ctx):
     ctx.log("model random walks: " + "; ".join(f"{w['walks']} walks/{w['steps']} steps dl={w['deadlocks']} rep={w['repaired']}" for w in wres))
     ctx.log("model exploration: " + "; ".join(f"{x['states']} states{'' if x['exhausted'] else ' (capped)'} dl={x['deadlocks']} rep={x['repaired']}" for x in xres))
     ctx.log(f"{stats['runs']} runs, {stats['steps']} scheduler steps, verdicts {stats['verdicts']}, violation classes {stats['classes']}, model diffs {stats['diffs']}")
+    shrunk = {}
     for sig, (steps, scn, r) in sorted(found.items()):
+        try:
+            sh = shrink_schedule(exe, scn, r, sig, repaired)
+        except Exception as ex:        # the shrinker must never hide the finding
+            sh = None
+            ctx.notes.append(f"shrinker failed for {sig}: {ex}")
+        if sh:
+            shrunk[sig] = sh
+    ctx.cov["shrunk_schedules"] = {k: {"forced_choices": v[1], "steps": v[2]} for k, v in shrunk.items()}
+    for sig, (steps, scn, r) in sorted(found.items()):
+        if sig in shrunk:
+            line, nd, st, best = shrunk[sig]
+            txt = (line + f"\n# minimised by delta debugging: {nd} forced scheduling choice(s) on top of the non-preemptive default policy, {st} steps"
+                   + "\n# found as: " + r["req"][:300] + "\n# " + " ; ".join(f"{c}: {m}" for c, m in best["bad"]) + "\n# " + best["fin"] + "\n")
+            ctx.violation(f"implementation violates C10 under the controlled scheduler: {sig} ({stats['classes'][sig]} of {stats['runs']} runs)", txt,
+                          signature=sig)
+            continue
         txt = exact_request(scn, r) + "\n# schedule found as: " + r["req"][:400] + "\n# " + " ; ".join(f"{c}: {m}" for c, m in r["bad"]) + "\n# " + r["fin"] + "\n"
         ctx.violation(f"implementation violates C10 under the controlled scheduler: {sig} ({stats['classes'][sig]} of {stats['runs']} runs)", txt,
                       signature=sig)
